@@ -107,6 +107,7 @@ func (f *fsm) cleanup() {
 func (f *fsm) run() {
 	defer func() {
 		f.cleanup()
+		verifEvent("f.exit", f.peer, f)
 		close(f.doneCh)
 	}()
 
@@ -137,6 +138,7 @@ func (f *fsm) run() {
 			t = newStateTransition(t.from, disabledState)
 		}
 
+		verifEvent("f.enter", f.peer, f, f.conn != nil, t.from, t.to)
 		if t.to != toBefore && t.to == disabledState && f.conn != nil &&
 			t.from > activeState {
 			// we were disabled while transitioning to a target state with an
@@ -165,8 +167,10 @@ func (f *fsm) run() {
 			desired, err = f.established()
 		}
 
+		verifEvent("f.return", f.peer, f, t.to, desired, err)
 		if err != nil {
 			// if an error occurred we signal it to the peer
+			verifPoint("run.errselect")
 			select {
 			case <-f.closeCh:
 				t = newStateTransition(t.to, disabledState)
@@ -235,6 +239,8 @@ func (f *fsm) dialPeer() {
 		conn, err := dialer.DialContext(ctx, "tcp",
 			net.JoinHostPort(f.peer.config.RemoteAddress.String(),
 				strconv.Itoa(f.peer.options.port)))
+		verifEvent("d.result", f.peer, f, err == nil)
+		verifPoint("dial.handoff")
 		dialResultCh <- &dialResult{
 			conn: conn,
 			err:  err,
@@ -792,6 +798,7 @@ func (u *updateMessageWriter) WriteUpdate(b []byte) error {
 	case <-u.closeCh:
 		return io.ErrClosedPipe
 	default:
+		verifPoint("writeupdate.afterclosecheck")
 		_, err := u.conn.Write(prependHeader(b, updateMessageType))
 		if err == nil {
 			select {
